@@ -65,6 +65,27 @@ def rule_normaliser(ctx: Ctx) -> None:  # noqa: C901
                 ctx.add("2-normaliser", m.name, f"{m.relpath}:{c.lineno}", False, f"`{norm(c)[:60]}` re-wraps slice.indices() in a slice: for a negative step that runs through index 0 the resolved stop is -1, which a slice reads as "
                         "\"the last element\" - `[::-1]`, `[2::-1]`, `[::-2]` select nothing (the array comes back empty or filled with None) where numpy and the other backends return the reversed data", key=f"slice-of-indices {m.name.rsplit('.', 1)[-1]}")
     ctx.add("2-normaliser", SA, "", True, f"{n_ix} slice.indices() resolution(s) examined: none is wrapped back into a slice", key="slice-of-indices-scan")
+    # what stands in for an UNWRITTEN element is masked: np.ma.empty / np.ma.zeros give a masked array with NOTHING masked (its None
+    # values are indistinguishable from stored ones); and where the written branch selects `[internal_key]`, the unwritten one does too
+    n_ph = 0
+    for m in P.modules.values():
+        if not m.name.startswith(SA) or "zarr" in m.name:
+            continue
+        for f_ in P.functions_in(m.name):
+            for c in walk_no_nested(f_.node):
+                if isinstance(c, ast.Call) and dotted(c.func) in ("np.ma.empty", "numpy.ma.empty", "np.ma.zeros", "np.ma.ones", "np.ma.empty_like"):
+                    n_ph += 1
+                    ctx.add("5-siblings", f_, c, False, f"`{norm(c)[:50]}` is a masked array with NOTHING masked: used as the stand-in for an unwritten element it reads back as an unmasked block of None - "
+                            "`arr[i, j]` of a missing element is not `masked`, and the other backends (and the masked NumPy reference) disagree", key=f"placeholder-masked {f_.name}")
+            if f_.name == "__getitem__":
+                picks = [x for x in walk_no_nested(f_.node) if isinstance(x, ast.Subscript) and isinstance(x.slice, ast.Name) and x.slice.id == "internal_key" and isinstance(x.ctx, ast.Load)]
+                bare = [r for r in walk_no_nested(f_.node) if isinstance(r, ast.Return) and isinstance(r.value, ast.Call) and norm(r.value.func).endswith("_internal_mask") ]
+                if picks:
+                    n_ph += 1
+                    ctx.add("5-siblings", f_, bare[0] if bare else f_.node, not bare, "the stand-in for an unwritten element is indexed by the internal key like a written one" if not bare else
+                            f"`{norm(bare[0])}` hands back the WHOLE internal block for an unwritten element although the key names one position in it (the written branch returns `arr[internal_key]`): "
+                            "the result has the wrong shape and is not `masked`", key=f"placeholder-indexed {f_.cls.name if f_.cls else f_.name}")
+    ctx.add("5-siblings", SA, "", True, f"{n_ph} placeholder construct(s) for unwritten elements examined", key="placeholder-scan")
     for cq in KEYED:
         cls = P.cls(cq)
         for mname in ("__getitem__", "dump"):
